@@ -24,7 +24,7 @@ from irispie.red_vars._variants import Variant
 from .common import Ctx, rat_of_float, VERIF
 
 DRIVERS = ["C18"]
-EXTRA_PROPS = ["QMatBridge"]   # refinement bridge: the executable QMat model satisfies the hypotheses of the matrix-level theorems
+EXTRA_PROPS = ['QMatBridge', 'QMatSolveBridge', 'GenTieCore', 'GenTieC18']   # refinement bridge: the executable QMat model satisfies the hypotheses of the matrix-level theorems
 LEVEL = "proof"
 MANIFEST = {
     "category": "proof",
@@ -34,7 +34,7 @@ MANIFEST = {
              "covariance times its denominator is u u^T and is symmetric; simulating the flat VAR recursion with the estimated residuals "
              "reproduces the data for every horizon (induction over periods, stated both abstractly and about the executable model's "
              "simulate); the companion recursion's top block is the VAR recursion; the companion mean solves (I - sum A_i) mu = c and is a "
-             "fixed point of the recursion. The executable model (exact rationals, NaN as none, lag stacking, complete-column mask, prior "
+             "fixed point of the recursion. The public wrappers are model functions too: what estimate(target_db=...) returns is the finite-map union target | output (theorem: every produced name has its fresh value, every other name of the target is carried over), and an estimated variant is a state machine with the companion-matrix memo (theorem, by induction over request histories: every ordinary / deviation-mode request is answered with the companion matrix and the constant of the mode it asked for, whatever was requested before). The executable model (exact rationals, NaN as none, lag stacking, complete-column mask, prior "
              "dummy observations, dof correction, residuals on all periods, companion form, mean, simulation with exogenous impact) is tied to "
              "irispie.RedVAR on every run by differential correspondence: masks, NaN patterns, companion matrices and dyadic simulations "
              "exactly, LAPACK results within 1e-7 relative on instances whose normal matrix has a measured condition number < 1e7. "
